@@ -17,4 +17,6 @@ def run(ctx):
     dbcommon.run_db(ctx, "tran", 24 if ctx.thorough() else 2, "C02c")
     # (c) 40 tables: table infos in deeper nodes of the persistent metadata map, long-lived readers
     dbcommon.run_db(ctx, "wide", 12 if ctx.thorough() else 1, "C02w")
+    # (d) a table with multi-level btrees (leaf splits while persisting) under long-lived readers
+    dbcommon.run_db(ctx, "big", 4 if ctx.thorough() else 1, "C02b")
     ctx.assumptions += dbcommon.ASSUME
